@@ -416,10 +416,14 @@ def shrink(case):
 
 
 def search(rng, tier, disagreeing):
+    import time as _time
     r2 = random.Random(rng.randrange(1 << 30))
     n = 0
+    t_end = _time.time() + fw.tier_scale(tier, 25, 240)  # the failing-input search has a time budget
     for c in gen_apply_cases(r2, "thorough"):
         n += 1
+        if _time.time() > t_end:
+            break
         if n > fw.tier_scale(tier, 3000, 9000):
             break
         v = oracle(c, impl(c))
